@@ -159,6 +159,15 @@ macro_rules! cmp {
             // the untyped NULL (`a = NULL`): unknown
             (A::Null(a), _) | (_, A::Null(a)) => (0..a.len()).map(|_| None::<bool>).collect(),
 
+            // a character string against a value of another type (`d < '2024-01-01'`, which the
+            // type checker accepts): the string is read as a value of that type
+            (A::String(_), b) if b.scalar_type().is_some() => {
+                return self.cast(&b.scalar_type().unwrap())?.$name(other)
+            }
+            (a, A::String(_)) if a.scalar_type().is_some() => {
+                return self.$name(&other.cast(&a.scalar_type().unwrap())?)
+            }
+
             _ => return Err(ConvertError::NoBinaryOp(stringify!($name).into(), self.type_string(), other.type_string())),
         })))
         }
@@ -177,6 +186,24 @@ impl ArrayImpl {
     cmp!(lt,  <);
     cmp!(ge, >=);
     cmp!(le, <=);
+
+    /// The data type of a scalar (non-string) array, to read a character string as.
+    fn scalar_type(&self) -> Option<DataType> {
+        Some(match self {
+            A::Bool(_) => DataType::Bool,
+            A::Int16(_) => DataType::Int16,
+            A::Int32(_) => DataType::Int32,
+            A::Int64(_) => DataType::Int64,
+            A::Float64(_) => DataType::Float64,
+            A::Decimal(_) => DataType::Decimal(None, None),
+            A::Date(_) => DataType::Date,
+            A::Timestamp(_) => DataType::Timestamp,
+            A::TimestampTz(_) => DataType::TimestampTz,
+            A::Interval(_) => DataType::Interval,
+            A::Blob(_) => DataType::Blob,
+            _ => return None,
+        })
+    }
 
     pub fn div(&self, other: &Self) -> Result {
         let valid_rhs = other.get_valid_bitmap();
